@@ -202,9 +202,48 @@ Proof.
 Qed.
 Print Assumptions C04_sorted_history_int.
 
+Definition e (k : Z) (i : N) : Z * N := (k, i).
+
+(* lyd_dup_siblings of the instances xs of a (leaf-)list into a parent that may already hold instances (lyd_dup of
+   src/tree_data.c as fixed: a duplicate is appended only when the first one is the only instance and the last
+   sibling): no NULL dereference, the leader's tree walks the siblings, the siblings are the old ones plus the
+   duplicates; they are sorted as soon as there is a tree, and sorting them (which the next sorted insert does when
+   there is no tree yet) gives exactly the duplicates inserted one by one. *)
+Theorem C04_lyds_dup_spec :
+  forall A (cmp : A -> A -> comparison) (ideq : A -> A -> bool), total_preorder cmp -> is_identity ideq ->
+  forall after src_meta (s : lst A) xs, lyds_ok cmp s -> NoDup (sibs s ++ xs) ->
+  exists s', lyds_dup cmp ideq true after src_meta s xs = Some s' /\ lyds_ok cmp s' /\
+             isort cmp (sibs s') = fold_left (stable_insert cmp) xs (isort cmp (sibs s)) /\
+             Permutation (sibs s ++ xs) (sibs s') /\ (~ no_tree s' -> sorted cmp (sibs s')).
+Proof. intros A cmp ideq (H1 & H2) Hid after sm. apply lyds_dup_spec; assumption. Qed.
+Print Assumptions C04_lyds_dup_spec.
+
+(* The code BEFORE that fix (fixed = false: the append path is kept whenever the duplicate is the last sibling) does
+   not have this property: duplicating 3, 4 into a parent holding 1, 2 (built by sorted inserts, so with a tree)
+   leaves 4 outside the tree, and the next sorted insert of 5 gives 1 2 3 5 4. *)
+Theorem C04_lyds_dup_before_fix_refuted :
+  exists (s : lst (Z * N)) xs x,
+    lyds_ok elt_cmp s /\ NoDup (sibs s ++ xs) /\
+    match lyds_dup elt_cmp elt_ideq false false false s xs with
+    | Some s1 => match lyds_insert elt_cmp elt_ideq s1 x false with
+                 | Some s2 => sibs s2 = [e 1 0; e 2 1; e 3 2; e 5 4; e 4 3]
+                 | None => False
+                 end
+    | None => False
+    end.
+Proof.
+  destruct (lyds_insert elt_cmp elt_ideq (mkLst [e 1 0] None) (e 2 1) false) as [s|] eqn:E; [|vm_compute in E; discriminate].
+  exists s, [e 3 2; e 4 3], (e 5 4). vm_compute in E. injection E as <-. split; [|split].
+  - split.
+    + cbn. repeat constructor; cbn; intuition discriminate.
+    + cbn [rbt]. split; [reflexivity|]. apply C04_rb_check_sound; [apply C04_int_order_instance|]. vm_compute. reflexivity.
+  - cbn. repeat constructor; cbn; intuition discriminate.
+  - vm_compute. reflexivity.
+Qed.
+Print Assumptions C04_lyds_dup_before_fix_refuted.
+
 (* a non-trivial value: 9 nodes with three equal keys inserted in zig-zag order, two removals; the tree passes
    the checker, has the invariant, and the equal keys 5 stand in insertion order (identities 1, 4, 6) *)
-Definition e (k : Z) (i : N) : Z * N := (k, i).
 Definition ex_ops : list (op (Z * N)) :=
   [Ins (e 1 0); Ins (e 5 1); Ins (e 9 2); Ins (e 3 3); Ins (e 5 4); Ins (e 7 5); Ins (e 5 6); Ins (e 2 7); Ins (e 8 8);
    Rem 0; Rem 6].
